@@ -116,3 +116,13 @@ Qed.
 Lemma alookup_map {A B} (h : A -> B) k (l : list (nat * A)) :
   alookup k (map (fun p => (fst p, h (snd p))) l) = option_map h (alookup k l).
 Proof. induction l as [|[k2 u] r IH]; cbn; [reflexivity|]. destruct (Nat.eqb k k2); [reflexivity | exact IH]. Qed.
+
+Lemma In_alookup_nd {A} k (v : A) l : NoDup (map fst l) -> In (k, v) l -> alookup k l = Some v.
+Proof.
+  induction l as [|[k' v'] l IH]; intros ND Hi; [destruct Hi|]. cbn [alookup]. cbn [map fst] in ND. inversion ND as [|? ? Nk NDl]; subst.
+  destruct Hi as [Hi|Hi].
+  - inversion Hi; subst. rewrite Nat.eqb_refl. reflexivity.
+  - destruct (Nat.eqb k k') eqn:Q.
+    + apply Nat.eqb_eq in Q. subst. exfalso. apply Nk. apply in_map_iff. exists (k', v). split; [reflexivity | exact Hi].
+    + apply IH; assumption.
+Qed.
